@@ -109,6 +109,16 @@ Theorem C07_single_probe_interleaved : forall kc h ks o,
 Proof. exact single_probe_interleaved. Qed.
 Print Assumptions C07_single_probe_interleaved.
 
+(** In every reachable state of the breaker specification (after any history of allow / record_* /
+    state with any clock readings) the probe slot is taken only while HALF_OPEN, and a breaker that
+    is not CLOSED remembers when it opened -- so the recovery timeout is always measured from a real
+    opening instant and an OPEN or CLOSED breaker never carries a stale probe flag. *)
+Theorem C07_shape_reachable : forall c h,
+  let s := snd (srun c sinit h) in
+  (s_probe s = true -> s_st s = HALF_OPEN) /\ (s_st s <> CLOSED -> s_opened_at s <> None).
+Proof. exact shape_inv_reachable. Qed.
+Print Assumptions C07_shape_reachable.
+
 (** Non-vacuity of the interleaving theorem: A and B admitted while CLOSED, A fails and opens the circuit,
     B ends (harmlessly, the circuit is OPEN), P is admitted as the probe after the timeout, Q is rejected,
     P succeeds. *)
